@@ -35,6 +35,11 @@ def plan(tier):
          ('P', 0, 2, 32), ('P', 1, 2, 32)]
     for name, order, bound, of in enum:
         sh += [{'kind': 'enumeration', 'scenario': name, 'order': order, 'bound': bound, 'shard': i, 'of': of} for i in range(of)]
+    # the same with a scheduling point at every source line of PlayerThread._connect / run and Server.run: the seat table
+    # (a plain dict shared by the threads) is then no longer assumed to change atomically with the neighbouring step
+    for order in ((2,) if tier == 'quick' else (0, 1, 2)):
+        sh += [{'kind': 'enumeration', 'scenario': 'P', 'order': order, 'bound': 1, 'shard': i, 'of': 8, 'traced': True} for i in range(8)]
+    sh += [{'kind': 'enumeration', 'scenario': 'P', 'order': 2, 'bound': 1, 'shard': i, 'of': 4} for i in range(4)]
     return sh
 
 
@@ -66,20 +71,24 @@ def run_enumeration(spec, stats):
     scenario = fixed_scenario(spec['scenario'])
     order, shard, of, bound = spec['order'], spec['shard'], spec['of'], spec['bound']
 
+    trace = (('/network_bridge/server.py',), ('_connect', 'run')) if spec.get('traced') else None
+
     def points(at):
         rec = []
-        r = SE.run_case(scenario, Preemptions(at, order, rec))
+        r = SE.run_case(scenario, Preemptions(at, order, rec), trace=trace)
         return r, [(step, k) for step, n in rec for k in range(1, n)]
 
     def one(at):
         sched = {'kind': 'pre', 'at': {str(s): k for s, k in at.items()}, 'order': order}
-        r = SE.run_case(scenario, sched)
+        r = SE.run_case(scenario, sched, trace=trace)
+        if trace:
+            sched = dict(sched, traced=True)
         SE.first_problem(SE.completion_problems(scenario, r), scenario, sched, r)
         stats.evaluated()
-        stats.cls(f'enumerated: {spec["scenario"]} bound {bound} order {order}')
+        stats.cls(f'enumerated: {spec["scenario"]} bound {bound} order {order}' + (' (line-level points inside the admission code and the run loops)' if trace else ''))
         if r.outcome.max_waited >= 50:
             stats.cls('runs with a real stall (>=50 steps)')
-        stats.nt(['enum', spec['scenario'], order, sorted(at.items())],
+        stats.nt(['enum', spec['scenario'], order, bool(trace), sorted(at.items())],
                  {'enumerated_session': spec['scenario'], 'default_order': order, 'deviations': sorted(at.items()), 'steps': r.outcome.steps}
                  if len(stats.samples) < 2 else None)
 
@@ -106,7 +115,8 @@ def run_enumeration(spec, stats):
 
 
 def check_ref_session(scenario, schedule, stats=None, **kw):
-    r = SE.run_case(scenario, schedule)
+    trace = (('/network_bridge/server.py',), ('_connect', 'run')) if isinstance(schedule, dict) and schedule.get('traced') else None
+    r = SE.run_case(scenario, schedule, trace=trace)
     SE.first_problem(SE.completion_problems(scenario, r), scenario, schedule, r)
     if stats is not None:
         stats.evaluated()
